@@ -39,7 +39,9 @@ func ScanReader(nshard int, reader func() (io.ReadCloser, error)) Slice {
 			}
 			state.Scanner = bufio.NewScanner(rc)
 			state.Closer = rc
-			if err := skip(state.Scanner, shard); err != nil {
+			// Position the scanner on this shard's first line (line number
+			// shard, counting from 0): that takes shard+1 calls to Scan.
+			if err := skip(state.Scanner, shard+1); err != nil {
 				return 0, err
 			}
 		}
